@@ -398,15 +398,33 @@ package redis
 //@ ensures {C10} err == nil ==> 1 <= result1 && result1 <= 9223372036
 //@ ensures old(args.index) <= args.index && args.index <= old(args.index) + 3
 
+// oneOpt(a, W): the remaining arguments are exactly the option word W (any letter case); oneOptN(a, W): exactly "W n" with an integer n
+//@ spec func oneOpt(a ref, w string) bool = len(a.msgs) == a.index + 1 && strArg(a, 0) && toUpper(argS(a, 0)) == w
+//@ spec func oneOptN(a ref, w string) bool = len(a.msgs) == a.index + 2 && strArg(a, 0) && toUpper(argS(a, 0)) == w && intArg(a, 1)
+
 //@ func nextSetOptionArguments
 //@ requires args != nil
 //@ assigns args.index
 //@ ensures {C05} !old(hasArg(args, 0)) ==> err == nil && !result0.NX && !result0.XX && !result0.GET && !result0.KEEPTTL && result0.EX == 0 && result0.PX == 0
 //@ ensures {C10} err == nil ==> !(result0.NX && result0.XX)
 //@ ensures {C10} err == nil ==> 0 <= result0.EX && 0 <= result0.PX
+//@ ensures {C05} old(oneOpt(args, "NX")) ==> err == nil && result0.NX && !result0.XX && !result0.GET && !result0.KEEPTTL && result0.EX == 0 && result0.PX == 0
+//@ ensures {C05} old(oneOpt(args, "XX")) ==> err == nil && !result0.NX && result0.XX && !result0.GET && !result0.KEEPTTL && result0.EX == 0 && result0.PX == 0
+//@ ensures {C05} old(oneOpt(args, "GET")) ==> err == nil && !result0.NX && !result0.XX && result0.GET && !result0.KEEPTTL && result0.EX == 0 && result0.PX == 0
+//@ ensures {C05} old(oneOpt(args, "KEEPTTL")) ==> err == nil && !result0.NX && !result0.XX && !result0.GET && result0.KEEPTTL && result0.EX == 0 && result0.PX == 0
+//@ ensures {C05} old(oneOptN(args, "EX")) && 1 <= old(argI(args, 1)) && old(argI(args, 1)) <= maxExpireSeconds ==> err == nil && result0.EX == old(argI(args, 1)) * 1000000000 && result0.PX == 0 && !result0.NX && !result0.XX && !result0.GET && !result0.KEEPTTL
+//@ ensures {C05} old(oneOptN(args, "PX")) && 1 <= old(argI(args, 1)) && old(argI(args, 1)) <= maxExpireMilliseconds ==> err == nil && result0.PX == old(argI(args, 1)) * 1000000 && result0.EX == 0 && !result0.NX && !result0.XX && !result0.GET && !result0.KEEPTTL
 //@ ensures old(args.index) <= args.index
 //@ loop 0
 //@   invariant old(args.index) <= args.index && args.index <= len(args.msgs)
+//@   invariant {C05} args.index == old(args.index) ==> !opt.NX && !opt.XX && !opt.GET && !opt.KEEPTTL && opt.EX == 0 && opt.PX == 0 && isZeroTime(opt.EXAT) && isZeroTime(opt.PXAT)
+//@   invariant {C05} old(oneOpt(args, "NX")) && args.index == old(args.index) + 1 ==> opt.NX && !opt.XX && !opt.GET && !opt.KEEPTTL && opt.EX == 0 && opt.PX == 0
+//@   invariant {C05} old(oneOpt(args, "XX")) && args.index == old(args.index) + 1 ==> !opt.NX && opt.XX && !opt.GET && !opt.KEEPTTL && opt.EX == 0 && opt.PX == 0
+//@   invariant {C05} old(oneOpt(args, "GET")) && args.index == old(args.index) + 1 ==> !opt.NX && !opt.XX && opt.GET && !opt.KEEPTTL && opt.EX == 0 && opt.PX == 0
+//@   invariant {C05} old(oneOpt(args, "KEEPTTL")) && args.index == old(args.index) + 1 ==> !opt.NX && !opt.XX && !opt.GET && opt.KEEPTTL && opt.EX == 0 && opt.PX == 0
+//@   invariant {C05} old(oneOptN(args, "EX")) && 1 <= old(argI(args, 1)) && old(argI(args, 1)) <= maxExpireSeconds && args.index == old(args.index) + 2 ==> opt.EX == old(argI(args, 1)) * 1000000000 && opt.PX == 0 && !opt.NX && !opt.XX && !opt.GET && !opt.KEEPTTL
+//@   invariant {C05} old(oneOptN(args, "PX")) && 1 <= old(argI(args, 1)) && old(argI(args, 1)) <= maxExpireMilliseconds && args.index == old(args.index) + 2 ==> opt.PX == old(argI(args, 1)) * 1000000 && opt.EX == 0 && !opt.NX && !opt.XX && !opt.GET && !opt.KEEPTTL
+//@   invariant {C05} old(oneOptN(args, "EX")) || old(oneOptN(args, "PX")) ==> args.index == old(args.index) || args.index == old(args.index) + 2
 //@   invariant {C10} !(opt.NX && opt.XX) && 0 <= opt.EX && 0 <= opt.PX
 //@   invariant {C05} !old(hasArg(args, 0)) ==> args.index == old(args.index) && !opt.NX && !opt.XX && !opt.GET && !opt.KEEPTTL && opt.EX == 0 && opt.PX == 0
 //@   decreases len(args.msgs) - args.index
@@ -539,6 +557,9 @@ package redis
 //@ ensures {C12} H_err[old(H_calls)] == nil && !msgIsNil(H_res[old(H_calls)]) && !msgIntOK(H_res[old(H_calls)]) ==> err != nil && H_calls == old(H_calls) + 1
 //@ ensures {C12} err == nil && msgIsNil(H_res[old(H_calls)]) ==> H_calls == old(H_calls) + 2 && H_m[old(H_calls) + 1] == "Set" && H_Set_key[old(H_calls) + 1] == key && H_Set_val[old(H_calls) + 1] == itoa(val) && intReply(result0, val)
 //@ ensures {C12} err == nil && !msgIsNil(H_res[old(H_calls)]) ==> H_calls == old(H_calls) + 2 && H_m[old(H_calls) + 1] == "Set" && H_Set_key[old(H_calls) + 1] == key && H_Set_val[old(H_calls) + 1] == itoa(atoi(string(H_res[old(H_calls)].bytes)) + val) && intReply(result0, atoi(string(H_res[old(H_calls)].bytes)) + val)
+//@ ensures {C12} H_err[old(H_calls)] == nil && msgIntOK(H_res[old(H_calls)]) && !msgIsNil(H_res[old(H_calls)]) && -9223372036854775808 <= atoi(string(H_res[old(H_calls)].bytes)) + val && atoi(string(H_res[old(H_calls)].bytes)) + val <= 9223372036854775807 ==> H_calls == old(H_calls) + 2
+//@ ensures {C12} H_err[old(H_calls)] == nil && msgIsNil(H_res[old(H_calls)]) ==> H_calls == old(H_calls) + 2
+//@ ensures {C12} H_calls == old(H_calls) + 2 && H_err[old(H_calls) + 1] == nil ==> err == nil
 //@ ensures {C12} H_err[old(H_calls)] == nil && msgIntOK(H_res[old(H_calls)]) && !msgIsNil(H_res[old(H_calls)]) && (atoi(string(H_res[old(H_calls)].bytes)) + val > 9223372036854775807 || atoi(string(H_res[old(H_calls)].bytes)) + val < -9223372036854775808) ==> err != nil && H_calls == old(H_calls) + 1
 
 //@ executor "MGET"
@@ -670,6 +691,11 @@ package redis
 //@ ensures {C05,C10} H_calls == old(H_calls) || H_calls == old(H_calls) + 1
 //@ ensures {C10} !old(strArg(args, 0)) || !old(strArg(args, 1)) ==> err != nil && H_calls == old(H_calls)
 //@ ensures {C05} old(strArg(args, 0)) && old(strArg(args, 1)) && !old(hasArg(args, 2)) ==> H_calls == old(H_calls) + 1 && !H_Set_opt_NX[old(H_calls)] && !H_Set_opt_XX[old(H_calls)] && !H_Set_opt_GET[old(H_calls)] && !H_Set_opt_KEEPTTL[old(H_calls)] && H_Set_opt_EX[old(H_calls)] == 0 && H_Set_opt_PX[old(H_calls)] == 0
+//@ ensures {C05} old(strArg(args, 0) && strArg(args, 1) && len(args.msgs) == args.index + 4 && strArg(args, 2) && toUpper(argS(args, 2)) == "EX" && intArg(args, 3)) && 1 <= old(argI(args, 3)) && old(argI(args, 3)) <= maxExpireSeconds ==> H_calls == old(H_calls) + 1 && H_Set_opt_EX[old(H_calls)] == old(argI(args, 3)) * 1000000000 && H_Set_opt_PX[old(H_calls)] == 0 && !H_Set_opt_NX[old(H_calls)] && !H_Set_opt_XX[old(H_calls)]
+//@ ensures {C05} old(strArg(args, 0) && strArg(args, 1) && len(args.msgs) == args.index + 4 && strArg(args, 2) && toUpper(argS(args, 2)) == "PX" && intArg(args, 3)) && 1 <= old(argI(args, 3)) && old(argI(args, 3)) <= maxExpireMilliseconds ==> H_calls == old(H_calls) + 1 && H_Set_opt_PX[old(H_calls)] == old(argI(args, 3)) * 1000000 && H_Set_opt_EX[old(H_calls)] == 0
+//@ ensures {C05} old(strArg(args, 0) && strArg(args, 1) && len(args.msgs) == args.index + 3 && strArg(args, 2) && toUpper(argS(args, 2)) == "NX") ==> H_calls == old(H_calls) + 1 && H_Set_opt_NX[old(H_calls)] && !H_Set_opt_XX[old(H_calls)] && !H_Set_opt_GET[old(H_calls)]
+//@ ensures {C05} old(strArg(args, 0) && strArg(args, 1) && len(args.msgs) == args.index + 3 && strArg(args, 2) && toUpper(argS(args, 2)) == "XX") ==> H_calls == old(H_calls) + 1 && !H_Set_opt_NX[old(H_calls)] && H_Set_opt_XX[old(H_calls)] && !H_Set_opt_GET[old(H_calls)]
+//@ ensures {C05} old(strArg(args, 0) && strArg(args, 1) && len(args.msgs) == args.index + 3 && strArg(args, 2) && toUpper(argS(args, 2)) == "GET") ==> H_calls == old(H_calls) + 1 && !H_Set_opt_NX[old(H_calls)] && !H_Set_opt_XX[old(H_calls)] && H_Set_opt_GET[old(H_calls)]
 
 //@ executor "SCAN"
 //@ ensures {C05} H_calls == old(H_calls) + 1 ==> H_m[old(H_calls)] == "Scan" && H_conn[old(H_calls)] == conn && H_Scan_cursor[old(H_calls)] == old(argI(args, 0)) && result0 == H_res[old(H_calls)] && err == H_err[old(H_calls)]
